@@ -2,7 +2,7 @@ import MaddyVerif.Model.Address
 /-
 Model of sender authorisation:
 
-* `internal/authz/lookup.go`            `AuthorizeEmailUse`            → `validEmails`, `authorizeLoop`, `authorizeEmailUse`
+* `internal/authz/lookup.go`            `AuthorizeEmailUse`            → `tableEntries`, `validEmails`, `authorizeLoop`, `authorizeEmailUse`
 * `internal/check/authorize_sender/authorize_sender.go`
       `(*state).authzSender`                                           → `prepared`, `authzSender`
       `(*state).CheckSender`                                           → `checkSender`
@@ -128,8 +128,9 @@ def Reason.all : List Reason :=
 
 /-! ### `authz.AuthorizeEmailUse` -/
 
-/-- first part of `AuthorizeEmailUse`: the `validEmails` slice. -/
-def validEmails (mapping : Table) (username : Str) : Except Unit (List Str) :=
+/-- What the mapping table answers for the user, as a list (`LookupMulti`, or the one value of
+`Lookup`): the configured entries, before `AuthorizeEmailUse` looks at them. -/
+def tableEntries (mapping : Table) (username : Str) : Except Unit (List Str) :=
   match mapping with
   | .multi f => f username
   | .single f =>
@@ -138,10 +139,26 @@ def validEmails (mapping : Table) (username : Str) : Except Unit (List Str) :=
     | .ok (some v) => .ok [v]
     | .ok none => .ok []
 
+/-- first part of `AuthorizeEmailUse`: the `validEmails` slice — the table's entries without the
+empty strings (`if ent != "" { validEmails = append(validEmails, ent) }` for a MultiTable,
+`if ok && validEmail != ""` for a plain Table). -/
+def validEmails (mapping : Table) (username : Str) : Except Unit (List Str) :=
+  match mapping with
+  | .multi f =>
+    match f username with
+    | .error e => .error e
+    | .ok entries => .ok (entries.filter (fun ent => !ent.isEmpty))
+  | .single f =>
+    match f username with
+    | .error e => .error e
+    | .ok (some v) => if !v.isEmpty then .ok [v] else .ok []
+    | .ok none => .ok []
+
 /-- `ent == domain || ent == "*" || ent == addr` -/
 def entMatches (ent domain addr : Str) : Bool := ent == domain || ent == STAR || ent == addr
 
-/-- the `for _, addr := range addrs` loop: `Split` failure is an error, first match returns true. -/
+/-- the `for _, addr := range addrs` loop: `Split` failure is an error, first match returns true.
+`split` answers `(addr, "")` for the domain-less `postmaster`, so `domain` can be empty. -/
 def authorizeLoop (valid : List Str) : List Str → Except Unit Bool
   | [] => .ok false
   | addr :: rest =>
